@@ -34,6 +34,21 @@ claim('C16',
       "Rocq proof over generated real-number model (translator: symbolic tracing), Coquelicot is_derive, field/nra",
       "DESIGN.md 4/C16")
 
+claim('C18',
+      "Theorems (a) over the reals about util.to_180_range as GENERATED from /repo (scalar and array paths: range "
+      "(-180,180], congruence mod 360, uniqueness) and (b) about the hand-written executable model Model/StateDiff.v of "
+      "transform.resample_state / compute_state_difference (tables over Q, scipy Slerp as a Section variable with its "
+      "two endpoint premises): antisymmetry when the medians differ / on common stamps, self-difference exactly zero, "
+      "sub-sampling zero exactly in the cases where the code interpolates the full table, angle range incl. the repaired "
+      "swapped branch, every cell spelled out (NED metres with rn/rp at the mean point), resampling (knots reproduced, "
+      "linear elsewhere, span clipping, column order, sorted). The model is tied to the code by a correspondence run "
+      "(same generated table pairs through the model by vm_compute and through the real functions). Four recorded "
+      "findings (known_findings.txt) are exhibited in the model by vm_compute and printed as KNOWN-FINDING. Partial: "
+      "first-order recovery of a perturbation and shortest-arc Slerp are checked numerically only.",
+      COMMON_NOTE + "Model tie: generator quality bounds the correspondence (distribution in the evidence file).",
+      "Rocq proof over hand-written executable model + vm_compute correspondence; generated real-number model for to_180_range",
+      "DESIGN.md 4/C18")
+
 REASON_TODO = "check not built yet (framework under construction; see DESIGN.md section 4 for the planned proof)"
 
 
